@@ -75,6 +75,10 @@ def run(ctx):
     report.extra["special_cases"] = SPECIAL
     # ---- R3 structural rejections
     rejections(ctx, report, pbs, wbs)
+    if wbs.get("NSEC") is not None:
+        nsec_write_order(ctx, report, wbs["NSEC"])
+    else:
+        report.lost_anchor("NSEC::write_to")
     report.assumptions += ["tables/rdata_schema.tsv transcribes the RFC layouts", "semantic content of fields (e.g. LOC size encoding) is not decided"]
     return report.finish()
 
@@ -199,6 +203,90 @@ def rejections(ctx, report, pbs, wbs):
         else:
             viol(report, "C10-R3", b.qname, "order-check", "%s::parse does not reject %s that are not strictly increasing: %s" % (tn, what, why),
                  "%s:%d" % (b.file, b.line))
+
+
+def nsec_write_order(ctx, report, wb):
+    """RFC 4034 4.1.2: window blocks are written in increasing order.  `type_bit_maps` is a public vector in whatever order the
+    caller built it, and NSEC::parse rejects anything but strictly increasing blocks, so the writer must iterate over a vector
+    it has sorted by window_block - not over the field itself, nor over a sorted copy it then leaves aside."""
+    import loops
+    prog = ctx.prog
+    defs = mu.defs_of(wb)
+    dom = mu.dominators(wb)
+    lps, _irr, _d = loops.natural_loops(wb)
+
+    def source_local(op, depth=12):
+        """the vector local an iterator operand runs over, walking back through iter / into_iter / deref and references"""
+        cur = mu.op_local(op)
+        for _ in range(depth):
+            if cur is None:
+                return None
+            d = mu.single_def(defs, cur)
+            if d is None:
+                return ("local", cur)
+            if d[1] == "term":
+                t = d[2]
+                nm = t["callee"]["def"] if t.get("callee") else ""
+                if re.search(r"::(iter|iter_mut|into_iter|deref|deref_mut|as_slice|as_mut_slice)$", nm) and t["args"]:
+                    cur = mu.op_local(t["args"][0])
+                    continue
+                return ("call", nm)
+            rv = d[2]
+            if rv.get("k") == "ref":
+                pl = rv["pl"]
+                fs = [p0["n"] for p0 in pl["p"] if isinstance(p0, dict) and "f" in p0]
+                if fs:
+                    return ("field", fs[-1])
+                if pl["p"] == ["d"] or not pl["p"]:
+                    if not pl["p"]:
+                        dd = mu.single_def(defs, pl["l"])
+                        if dd is None or dd[1] == "term":
+                            return ("local", pl["l"])
+                    cur = pl["l"]
+                    continue
+                return None
+            if rv.get("k") == "use" and rv["op"].get("o") in ("copy", "move") and not rv["op"]["pl"]["p"]:
+                cur = rv["op"]["pl"]["l"]
+                continue
+            return ("local", cur)
+        return None
+    sorts = []
+    for bi, t in mu.calls(wb, r"^std::slice::<impl \[T\]>::(sort_by|sort_by_key|sort_unstable_by|sort_unstable_by_key|sort_by_cached_key)$"):
+        key_cl = mu.single_def(defs, mu.op_local(t["args"][1])) if len(t["args"]) > 1 and mu.op_local(t["args"][1]) is not None else None
+        cb = prog.bodies.get(key_cl[2]["def"]) if key_cl is not None and key_cl[1] != "term" and key_cl[2].get("ak") == "closure" else None
+        if cb is None and len(t["args"]) > 1 and t["args"][1].get("o") == "const" and t["args"][1]["k"].get("c") == "fn":
+            cb = prog.bodies.get(t["args"][1]["k"]["callee"].get("id"))       # a comparator passed by name
+        by_block = cb is not None and any(isinstance(p0, dict) and p0.get("n") == "window_block" for bl in cb.blocks for s in bl["stmts"]
+                                          if s["s"] == "assign" for pl in ([s["rv"].get("pl")] + [o.get("pl") for o in s["rv"].get("ops", [])] +
+                                                                          [s["rv"].get("op", {}).get("pl") if isinstance(s["rv"].get("op"), dict) else None] +
+                                                                          [s["rv"].get("a", {}).get("pl") if isinstance(s["rv"].get("a"), dict) else None])
+                                          if pl for p0 in pl["p"])
+        if by_block:
+            sorts.append((bi, source_local(t["args"][0])))
+    n = 0
+    for h, info in sorted(lps.items()):
+        ht = wb.blocks[h]["term"]
+        if ht["t"] != "call" or not ht.get("callee") or not ht["callee"]["def"].endswith("as std::iter::Iterator>::next"):
+            continue
+        # only the loop that writes the windows: a window_block read in its body
+        reads_wb = any(isinstance(p0, dict) and p0.get("n") == "window_block" for bi in info["body"] for s in wb.blocks[bi]["stmts"]
+                       if s["s"] == "assign" and s["rv"].get("k") == "use" and s["rv"]["op"].get("o") in ("copy", "move") for p0 in s["rv"]["op"]["pl"]["p"])
+        if not reads_wb:
+            continue
+        n += 1
+        report.count()
+        # the iterator is created before the loop: `&mut _it` <- `_it = into_iter(iter(deref(&V)))`
+        itl = mu.ref_root(wb, defs, mu.op_local(ht["args"][0])) if mu.op_local(ht["args"][0]) is not None else None
+        src = source_local({"o": "move", "pl": {"l": itl, "p": []}}) if itl is not None else None
+        ok = src is not None and src[0] == "local" and any(s_src == src and sbi in dom[h] for sbi, s_src in sorts)
+        if ok:
+            report.nontriv("NSEC windows written from the sorted vector")
+            report.sample({"rule": "R3", "fn": wb.qname, "holds_because": "the window loop iterates over _%d, sorted by window_block before the loop" % src[1]})
+        else:
+            viol(report, "C10-R3", wb.qname, "write-order", "NSEC::write_to writes the window blocks in the order of %s, which is not a vector "
+                 "sorted by window_block before the loop (sorted: %s): RFC 4034 4.1.2 requires increasing blocks and NSEC::parse rejects "
+                 "anything else" % ("self.%s" % src[1] if src and src[0] == "field" else src, [s for _b, s in sorts]), "%s:%d" % (wb.file, wb.line))
+    report.floor("NSEC window-writing loops", n, 1)
 
 
 def _syms(st):
